@@ -406,6 +406,47 @@ def step (_ : Unit) (line : String) : Unit × String :=
         | _, _, _ => "bad-op"
       | some referer, mode :: ah :: more => typedOp fn mode ah more (some referer)
       | _, _ => "bad-op"
+    | "wcall" :: fn :: rqp :: rsp :: mode :: wh :: rest =>
+      -- where the transport puts the body (own allocation / offset 0..15 in a larger buffer) is not an input of
+      -- any decoder: the model's request and response carry the byte string only
+      let placeOk := fun (t : String) => t == "own" || (match t.toNat? with | some k => k < 16 | none => false)
+      let wideFns := ["w_rkyv", "w_cbor", "w_msgpack", "w_postcard", "w_json_rkyv", "w_rkyv_json", "w_patchcbor_putrkyv"]
+      match bytesOfHex wh, findEnc (if fn == "w_patchcbor_putrkyv" then "Patch" else "Post") inputEncodings with
+      | some a, some ie =>
+        if !(placeOk rqp && placeOk rsp && wideFns.contains fn) then "bad-op" else
+        let body? : Option (Bytes → Except SErr Bytes) :=
+          match mode, rest with
+          | "echo", [] => some fun x => .ok x
+          | "fail", [variant, mh] =>
+            match strOfHex mh with
+            | some m => (mkErr "n" variant m).map fun e => fun _ => .error e
+            | none => none
+          | _, _ => none
+        match body? with
+        | some body =>
+          runFixture ie (sfeCodec noCustomError) (opaqueCodec []) (opaqueCodec []) [] showErr (decodeErrUrl noCustomError)
+            body (body a) a "pipeline" false none
+        | none => "bad-op"
+      | _, _ => "bad-op"
+    | ["ws", mode, mh] =>
+      let msgs? : Option (List Bytes) := if mh == "none" then some [] else (mh.splitOn ",").mapM bytesOfHex
+      match msgs? with
+      | some msgs =>
+        if !(mode == "interactive" || mode == "batch") then "bad-op" else
+        -- the harness' `ws_reply`
+        let reply : Except SErr Bytes → Except SErr Bytes := fun it =>
+          match it with
+          | .ok (33 :: r) => (match fromUtf8 (33 :: r) with | .ok s => .error ⟨"ServerError".toList, s⟩ | .error _ => .ok (33 :: r))
+          | .ok b => .ok (asciiB "re:" ++ b)
+          | .error e => .error e
+        let ec := sfeCodec noCustomError
+        -- every message is sent with `send` (feed + flush), so it is on the wire before the caller waits:
+        -- interactive and batch conversations see the same answers
+        let w := msgs.foldl (fun w m => w.send (wsEncode ec rawCodec (.ok m))) ({} : Writer)
+        let remote := w.wire.map fun f => wsDecode ec rawCodec (wsEncode ec rawCodec (reply (wsDecode ec rawCodec f)))
+        let direct := msgs.map fun m => reply (.ok m)
+        s!"{showItems remote} ## {if remote == direct && w.queue.isEmpty then "ok" else "fail websocket"}"
+      | none => "bad-op"
     | ["ncall", fn] =>
       let r? : Option (InEnc × Except SErr Bytes) :=
         if fn == "noargs_get" then (findEnc "GetUrl" inputEncodings).map fun ie => (ie, .ok (asciiB "pong|\n"))
